@@ -19,9 +19,15 @@ def main():
         others = [c for c in d["caught_by"] if c != m["property"]]
         run = d.get("checks_run") or []
         scope = "all 20" if len(run) >= 20 else ",".join(run)
+        latest = d.get("own_check_latest")
+        own_now = latest["reports_it"] if latest else d["own_property_check_reports_it"]
+        own_txt = "**yes**" if own_now else "NO"
+        if latest and latest["reports_it"] and not d["own_property_check_reports_it"] and m["property"] in run:
+            own_txt = "**yes** (after strengthening; missed at %s)" % d["verif_commit"][:7]
+        if latest:
+            own_txt += " @%s" % latest["verif_commit"][:7]
         rows.append("| %s | %s | %s | %s | %s | %s (%s) |" % (
-            m["id"], title.replace("|", "/"), need.replace("|", "/"),
-            "**yes**" if d["own_property_check_reports_it"] else "NO",
+            m["id"], title.replace("|", "/"), need.replace("|", "/"), own_txt,
             ", ".join(others) if others else "-", d["verif_commit"][:7], scope))
     own = sum(1 for r in rows if "**yes**" in r)
     head = ("%d changes, each written by a fresh sub-agent that saw only the property text and its own scratch worktree, each validated in a scratch "
